@@ -104,6 +104,7 @@ func setreqCmd(args []string) *rep.Result {
 		return res
 	}
 	type job struct {
+		s    int64 // concretisation seed of the case
 		e    *ReqEdge
 		pkg  *reg.Pkg
 		v    string
@@ -116,7 +117,7 @@ func setreqCmd(args []string) *rep.Result {
 		go func() {
 			defer wg.Done()
 			for j := range jobs {
-				runReq(j.e, j.pkg, &conc.Ctx{C: cp, V: cp.Variants[j.v], Seed: c.seed}, j.mode, res)
+				runReq(j.e, j.pkg, &conc.Ctx{C: cp, V: cp.Variants[j.v], Seed: j.s}, j.mode, res)
 			}
 		}()
 	}
@@ -139,7 +140,7 @@ func setreqCmd(args []string) *rep.Result {
 					if strings.HasPrefix(m, "setreq-extra") && !(len(e.Req) == 1 && e.Req[0].K == "upd" && e.Req[0].T == "json" && len(e.Req[0].P) > 0) {
 						continue
 					}
-					jobs <- job{e, pkg, v, m}
+					jobs <- job{s: c.seed + int64(i%13), e: e, pkg: pkg, v: v, mode: m}
 				}
 			}
 		}
